@@ -1,6 +1,7 @@
 package main
 
 import (
+	"github.com/shopspring/decimal"
 	"context"
 	"strings"
 
@@ -68,6 +69,14 @@ func init() {
 		}
 		var aos []types.AttributedObservation
 		outctx := ocr3types.OutcomeContext{SeqNr: jU64(in["seqNr"]), PreviousOutcome: jBytes(in["prevRaw"])}
+		if outcomeBytesF2(hp.p.OutcomeCodec, outctx.PreviousOutcome) {
+			return resOK("skipped-f2-domain")
+		}
+		for _, r := range jArr(in["obsRaw"]) {
+			if obsBytesF2(hp.p.ObservationCodec, jBytes(r)) {
+				return resOK("skipped-f2-domain")
+			}
+		}
 		for _, r := range jArr(in["obsRaw"]) {
 			b := jBytes(r)
 			// Outcome is only assumed to receive observations that passed its own validation
@@ -90,6 +99,9 @@ func init() {
 		hp, err := newPlugin(jCfg(in["cfg"]), mf, jBool(in["telemetry"]))
 		if err != nil {
 			return resErr("factory", err)
+		}
+		if outcomeBytesF2(hp.p.OutcomeCodec, jBytes(in["outcomeRaw"])) {
+			return resOK("skipped-f2-domain")
 		}
 		hp.p.Reports(context.Background(), jU64(in["seqNr"]), jBytes(in["outcomeRaw"]))
 		return resOK("returned")
@@ -395,4 +407,61 @@ func monC11(op J, res any) (viol []Violation, nontrivial bool) {
 	}
 	viol = append(viol, Violation{Sig: sig, Desc: "panic: " + msg, Op: op, Res: res})
 	return
+}
+
+// ---- domain guard for the byte-level fuzz ops
+//
+// A mutated byte string can carry a decimal with an exponent near ±2^31.  Comparing, rescaling or printing
+// such a value makes shopspring/decimal materialise 10^|gap| — known finding F2 (C19/decimal-scale-blowup,
+// with K4 its panic variant): a cost problem, measured and reported under C19 with a capped child process.
+// Here it would only stall the totality fuzz, so inputs whose decoded decimals have a scale beyond
+// ±f2MaxScale are not run (their count is visible in the evidence as result "skipped-f2-domain").
+const f2MaxScale = 100000
+
+func decF2(d decimal.Decimal) bool {
+	e := int64(d.Exponent())
+	return e > f2MaxScale || e < -f2MaxScale
+}
+
+func svF2(v llo.StreamValue) bool {
+	switch t := v.(type) {
+	case *llo.Decimal:
+		return t != nil && decF2(t.Decimal())
+	case *llo.Quote:
+		return t != nil && (decF2(t.Bid) || decF2(t.Benchmark) || decF2(t.Ask))
+	case *llo.TimestampedStreamValue:
+		return t != nil && svF2(t.StreamValue)
+	}
+	return false
+}
+
+func obsBytesF2(c llo.ObservationCodec, b []byte) bool {
+	o, err := c.Decode(b)
+	if err != nil {
+		return false
+	}
+	for _, v := range o.StreamValues {
+		if svF2(v) {
+			return true
+		}
+	}
+	return false
+}
+
+func outcomeBytesF2(c llo.OutcomeCodec, b []byte) bool {
+	if len(b) == 0 {
+		return false
+	}
+	o, err := c.Decode(b)
+	if err != nil {
+		return false
+	}
+	for _, m := range o.StreamAggregates {
+		for _, v := range m {
+			if svF2(v) {
+				return true
+			}
+		}
+	}
+	return false
 }
